@@ -557,12 +557,67 @@ func genScenario(rng *rand.Rand, id int, kind string) *Scenario {
 			ps.Lines = [][]string{{"READY"}, {"noise", "READY"}, {"noise"}, {}}[rng.Intn(4)]
 		}
 	}
+	if kind == "trigger" {
+		// the project ends itself: the first process to finish carries an exit_on_* setting (half of the time it
+		// ends successfully under exit_on_end), the others run until the triggered shutdown terminates them and
+		// carry exit_on_* settings themselves, so their termination codes compete for the project exit code
+		for i := range sc.Procs {
+			ps := &sc.Procs[i]
+			ps.Deps, ps.BadDir, ps.StartFail, ps.Disabled, ps.ExitOnSkipped = nil, false, false, false, false
+			if i == 0 {
+				ps.Forever, ps.MaxRestarts = false, 0
+				if rng.Intn(2) == 0 {
+					ps.Policy, ps.ExitOnEnd, ps.Codes = "no", true, []int{0}
+				} else {
+					ps.Policy, ps.ExitOnEnd, ps.Codes = "exit_on_failure", false, []int{3}
+				}
+				continue
+			}
+			ps.Forever = true
+			switch rng.Intn(4) {
+			case 0, 1:
+				ps.Policy = "exit_on_failure"
+			case 2:
+				ps.ExitOnEnd = true
+			}
+		}
+	}
 	sc.Ordered = rng.Intn(3) == 0
+	if kind == "ordered" {
+		// ordered shutdown over a dependency graph in which everything is up and many commands are slow to die:
+		// a dependent that was asked to stop shortly before the shutdown is still alive when its turn comes
+		sc.Ordered = true
+		for i := range sc.Procs {
+			ps := &sc.Procs[i]
+			ps.Deps, ps.BadDir, ps.StartFail, ps.Disabled, ps.ExitOnSkipped, ps.ExitOnEnd = nil, false, false, false, false, false
+			ps.ReadyProbe, ps.ReadyLine, ps.Probes, ps.Lines = false, false, nil, nil
+			ps.Forever = true
+			if rng.Intn(3) > 0 {
+				ps.Policy = "no"
+			}
+			ps.OnSignal = ""
+			if rng.Intn(5) < 3 {
+				ps.OnSignal = "later"
+			}
+			for j := 0; j < i; j++ {
+				if j == i-1 || rng.Intn(3) == 0 {
+					ps.Deps = append(ps.Deps, DepSpec{Name: fmt.Sprintf("p%d", j), Cond: "started"})
+				}
+			}
+		}
+	}
 	sc.Polite = rng.Intn(100) < politePct
 	sc.ParkState = rng.Intn(3) == 0
 	sc.Calls = []Call{{Op: "run"}}
 	nm := func() string { return sc.Procs[rng.Intn(len(sc.Procs))].Name }
 	switch kind {
+	case "ordered":
+		if rng.Intn(3) > 0 {
+			sc.Calls = append(sc.Calls, Call{Op: []string{"stop", "stop", "restart"}[rng.Intn(3)], Name: sc.Procs[1+rng.Intn(len(sc.Procs)-1)].Name})
+		}
+		sc.Calls = append(sc.Calls, Call{Op: "shutdown"})
+	case "trigger":
+		// no request at all: Run() must return by itself
 	case "api":
 		k := 1 + rng.Intn(4)
 		for i := 0; i < k; i++ {
